@@ -15,5 +15,5 @@ CHECK = {'level': 'exploration',
                'operations, under ASan/UBSan with allocation balance. Bounded: <= 5 items, <= 8 packets, <= 25 calls.',
  'level_note': 'Trusted: the iterator model transcribed from cif.h, dump_loop() through public getters.',
  'engines': [{'src': 'pbt/C06_pktitr.cpp',
-              'quick': {'workers': 8, 'cases': 800, 'size': 100},
+              'quick': {'workers': 8, 'cases': 2500, 'size': 100},
               'thorough': {'workers': 16, 'cases': 30000, 'size': 100}}]}
